@@ -48,6 +48,9 @@ VALID = ["rel_same", "fq_same", "rel_imported", "fq_imported", "rel_notimported"
 # in command-line order): a DEPENDENCY file imported only by a later API file comes after the service's file; a file reached
 # through an import of an import comes before it
 VALID += ["struct_elsewhere", "struct_transitive", "rel_transitive", "fq_transitive"]
+# a DEPENDENCY package whose first component has an upper-case letter and whose inner components are mixed-case (legal protobuf):
+# the fully-qualified name must still be read as written
+VALID += ["fq_upper_pkg"]
 VALID += ["rel_alone", "fq_alone"]   # the type sits alone in a file of its own that nobody imports and no other method touches
 # the type lives in a proto SUB-package of the API (<pkg>.common), in a file the service's file imports / does not import;
 # named fully qualified, or relative to the rpc's package (common.X, which the package-relative fallback resolves)
@@ -72,6 +75,7 @@ def annotation(kind, pkg, S):
         "fq_subpkg_imported": f"{pkg}.common.SubImp{S}", "fq_subpkg_notimported": f"{pkg}.common.SubOther{S}",
         "rel_subpkg_notimported": f"common.SubOther{S}",
         "empty": "google.protobuf.Empty", "empty_elsewhere": "google.protobuf.Empty",
+        "fq_upper_pkg": f"Acme.CommonTypes.v1X.Done{S}",
         "struct_elsewhere": "google.protobuf.Struct", "struct_transitive": "google.protobuf.Struct",
         "rel_transitive": f"Deep{S}", "fq_transitive": f"{pkg}.Deep{S}",
         "fq_nested": f"{pkg}.Outer.Inner{S}", "rel_nested": f"Outer.Inner{S}", "rel_nested_shadowed": f"Outer.Inner{S}",
@@ -180,6 +184,13 @@ def build_api(cell):
         else:
             files = files + [subf] if cell["order"] == "svc-first" else [subf] + files
         to_gen.append(subf.proto.name)
+    if "fq_upper_pkg" in kinds:
+        upper = File("Acme/CommonTypes/v1X/done.proto", "Acme.CommonTypes.v1X")
+        upper.message("DoneResp").field("text", 1, "string").field("n", 2, "int32")
+        upper.message("DoneMeta").field("pct", 1, "int32").field("stage", 2, "string")
+        types.dep(upper.proto.name)
+        types.message("DoneHolder").field("d", 1, ".Acme.CommonTypes.v1X.DoneResp")
+        files = files + [upper]
     if "fq_otherpkg" in kinds:
         files = files + [shared]          # placed by the topological sort: right before the first file that imports it
     if "rel_nested_shadowed" in kinds:
@@ -1167,7 +1178,7 @@ def e2e_cells(ctx, n):
         {"pkg_index": 2, "resp": "fq_same", "meta": "rel_imported", "annotated": True, "order": "svc-first", "internal": "some", "raw_sibling": True},
         {"pkg_index": 1, "resp": "fq_subpkg_imported", "meta": "rel_subpkg_notimported", "annotated": True, "order": "types-first"},
         {"pkg_index": 2, "resp": "empty", "meta": "rel_same", "annotated": True, "order": "svc-first", "twin_meta": "fq_notimported"},
-        {"pkg_index": 1, "resp": "fq_otherpkg", "meta": "rel_notimported", "annotated": True, "order": "types-middle", "selective": True},
+        {"pkg_index": 1, "resp": "fq_upper_pkg", "meta": "rel_notimported", "annotated": True, "order": "types-middle", "selective": True},
         {"pkg_index": 1, "resp": "fq_imported", "meta": "rel_same", "annotated": True, "order": "types-first", "rest_async": True, "ops_http": "multi"},
         {"pkg_index": 0, "resp": "empty", "meta": "rel_nested_imported", "annotated": True, "order": "types-first", "flat": "operation_async"},
         {"pkg_index": 0, "resp": "rel_notimported", "meta": "fq_same", "annotated": True, "order": "svc-first"},
